@@ -19,6 +19,45 @@ def build_impl():
     return C.IMPL
 
 
+def _eval_const(expr, env):
+    """integer constant expressions of the kind found in the sources: literals (with _ / 0x), known names, | & ^ << >> + - * ( )"""
+    e = expr.strip().replace("_", "")
+    e = re.sub(r"\b([0-9]+|0x[0-9a-fA-F]+)u?(8|16|32|64|size)\b", r"\1", e)
+    for name, val in env.items():
+        e = re.sub(r"\b%s\b" % name.replace("_", ""), str(val), e)
+    if not re.fullmatch(r"[0-9a-fA-Fx\s|&^<>+\-*()]+", e):
+        raise ValueError("not a constant expression: %r" % expr)
+    return int(eval(e, {"__builtins__": {}}, {}))
+
+
+def source_consts():
+    """Translator strand on the SOURCE TEXT of /repo's working tree: the block-status constants of index.rs and the subsidy rule of
+    block.rs are read from the Rust source and written into Rbp/Generated/Consts.lean, where theorems compare them with the
+    published values and with what the model assumes.  A constant that cannot be found or evaluated is emitted as absent, which
+    breaks the theorem (and is then reported as a broken obligation), never silently defaulted."""
+    status, reward = {}, (0, 0)
+    try:
+        txt = open(os.path.join(C.REPO, "src", "blockchain", "parser", "index.rs")).read()
+        txt = re.sub(r"//[^\n]*", "", txt)
+        env = {}
+        for m in re.finditer(r"^\s*(?:pub(?:\([a-z]+\))?\s+)?const\s+([A-Z][A-Z_0-9]*)\s*:\s*u(?:8|16|32|64|size)\s*=\s*([^;]+);", txt, re.M):
+            try:
+                env[m.group(1)] = _eval_const(m.group(2), env)
+            except Exception:
+                pass
+        status = {k: v for k, v in env.items() if k.startswith("BLOCK_")}
+    except OSError:
+        pass
+    try:
+        txt = open(os.path.join(C.REPO, "src", "blockchain", "proto", "block.rs")).read()
+        m = re.search(r"fn\s+get_base_reward\s*\(\s*(\w+)\s*:\s*u64\s*\)\s*->\s*u64\s*\{\s*\(([^)]+)\)\s*>>\s*\(\s*\1\s*/\s*([0-9_]+)\s*\)\s*\}", txt)
+        if m:
+            reward = (_eval_const(m.group(2), {}), _eval_const(m.group(3), {}))
+    except (OSError, ValueError):
+        pass
+    return status, reward
+
+
 def gen_consts():
     """Regenerates Rbp/Generated/Consts.lean from the binary just built (translator strand of the tie)."""
     p = C.run([C.IMPL, "verif-hook", "consts"], check=True)
@@ -33,6 +72,13 @@ def gen_consts():
         rows.append('  ⟨"%s", "%s", %s, %s, "%s", %s⟩' % (cli, name, magic, ver, gen, "none" if aux == "-" else "some %s" % aux))
     out.append(",\n".join(rows))
     out.append("]")
+    status, reward = source_consts()
+    out.append("")
+    out.append("/-- block-status constants read from the source text of src/blockchain/parser/index.rs (sorted by name) -/")
+    out.append("def statusConsts : List (String × Nat) := [" + ", ".join('("%s", %d)' % (k, v) for k, v in sorted(status.items())) + "]")
+    out.append("/-- `get_base_reward`: `(rewardBase) >> (height / halvingInterval)`, read from the source text of src/blockchain/proto/block.rs -/")
+    out.append("def rewardBase : Nat := %d" % reward[0])
+    out.append("def halvingInterval : Nat := %d" % reward[1])
     out.append("end Generated")
     text = "\n".join(out) + "\n"
     path = os.path.join(C.LEAN, "Rbp", "Generated", "Consts.lean")
